@@ -1039,9 +1039,16 @@ class Processor:
                         yield node_coord
 
         elif isinstance(data, (set, CommentedSet)):
+            # Prefer an exactly equal member; else allow for a string/number
+            # type mismatch, as is done for Hash keys
+            has_exact = stripped_attrs in [
+                ele.value if isinstance(ele, TaggedScalar) else ele
+                for ele in data]
             for ele in data:
                 ele_val = ele.value if isinstance(ele, TaggedScalar) else ele
-                if ele_val == stripped_attrs:
+                if (ele_val == stripped_attrs
+                    or (not has_exact and str(ele_val) == str_stripped)
+                ):
                     self.logger.debug((
                         "Processor::_get_nodes_by_key:  FOUND set node by"
                         " name at {}."
